@@ -380,7 +380,7 @@ class Interp:
     def e_UnaryOp(self, node, env):
         v = self.eval(node.operand, env)
         if isinstance(node.op, ast.Not):
-            t = pyops.truth(self.force_opt_truth(v))
+            t = self.truth(v)
             return pyops.mk_bool(pyops.py_not(t))
         if isinstance(node.op, ast.USub):
             return pyops.py_neg(self.force(v))
@@ -388,7 +388,7 @@ class Interp:
             return self.force(v)
         if isinstance(node.op, ast.Invert):
             v = self.force(v)
-            if isinstance(v, SOpaque):
+            if _overloaded(v):
                 return self.call_method(v, "__invert__", [], {})
             if isinstance(v, int):
                 return ~v
@@ -420,11 +420,19 @@ class Interp:
                 return last
         return last
 
+    def truth(self, v):
+        """truthiness -> python bool or z3 Bool (collections of unknown size included)"""
+        if isinstance(v, TheoryObj) and v.theory == "symiter":
+            return self.symiter_nonempty(v)
+        if isinstance(v, TheoryObj) and v.theory == "acc":
+            # emptiness of an accumulator of unknown history is not known
+            return self.ctx.fresh_bool("acc_nonempty")
+        if isinstance(v, SOpt) and isinstance(v.val, TheoryObj):
+            return z3.And(z3.Not(v.isnone), pyops.bool_z(self.truth(v.val)))
+        return pyops.truth(v)
+
     def decide_truth(self, v) -> bool:
-        if isinstance(v, TheoryObj) and v.theory in ("symiter", "acc"):
-            # emptiness of a collection of unknown size is not known
-            return self.ctx.flip(f"{v.theory}-nonempty")
-        t = pyops.truth(v)
+        t = self.truth(v)
         if isinstance(t, bool):
             return t
         return self.ctx.decide(t, "truth")
@@ -440,8 +448,8 @@ class Interp:
         op = _BINOPS.get(type(node.op))
         if op is None:
             raise Unsupported(f"binary operator {type(node.op).__name__}")
-        if isinstance(a, SOpaque) or isinstance(b, SOpaque):
-            recv, other, name = (a, b, _DUNDER[op]) if isinstance(a, SOpaque) else (b, a, _RDUNDER[op])
+        if _overloaded(a) or _overloaded(b):
+            recv, other, name = (a, b, _DUNDER[op]) if _overloaded(a) else (b, a, _RDUNDER[op])
             return self.call_method(recv, name, [other], {})
         if op == "%" and pyops.is_strlike(a):
             return SStr(self.ctx.fresh_str("pct"))
@@ -476,9 +484,9 @@ class Interp:
         if isinstance(op, (ast.In, ast.NotIn)):
             r = self.contains(b, a)
             return pyops.mk_bool(pyops.py_not(r) if isinstance(op, ast.NotIn) else r)
-        if isinstance(a, SOpaque) or isinstance(b, SOpaque):
+        if _overloaded(a) or _overloaded(b):
             sym = _CMPNAME[type(op)]
-            if isinstance(a, SOpaque):
+            if _overloaded(a):
                 return self.call_method(a, _DUNDER[sym], [b], {})
             return self.call_method(b, _RDUNDER[sym], [a], {})
         if isinstance(op, ast.Eq):
@@ -722,6 +730,13 @@ class Interp:
                     return SInt(z3.StrToCode(ch))
                 return SStr(ch)
             raise PyExc("IndexError")
+        if isinstance(base, TheoryObj) and base.theory == "symiter" and ("symiter", "__getitem__") not in self.reg.theory_methods:
+            # some element of a collection of unknown content (nothing is known about which one)
+            if not self.ctx.decide(self.symiter_nonempty(base), "symiter-index-nonempty"):
+                raise PyExc("IndexError")
+            if self.ctx.flip("symiter-index-out-of-range"):
+                raise PyExc("IndexError")
+            return base.fields["mk"](self)
         if isinstance(base, (TheoryObj, SOpaque)):
             return self.call_method(base, "__getitem__", [idx], {})
         raise Unsupported(f"subscript on {type(base).__name__}")
@@ -781,6 +796,10 @@ class Interp:
         return FuncVal(env.module, f"{env.fn}.<lambda@{node.lineno}>", node, closure=env)
 
     def e_ListComp(self, node, env):
+        if len(node.generators) == 1:
+            itv = self.force(self.eval(node.generators[0].iter, env))
+            if isinstance(itv, TheoryObj) and itv.theory == "symiter":
+                return self.symiter_comprehension(node, env, itv)
         return PList(self._comp(node, env, lambda e: self.eval(node.elt, e)))
 
     def e_GeneratorExp(self, node, env):
@@ -791,6 +810,43 @@ class Interp:
                 # generator over a collection of unknown size: consumed by any()/all() (see pybuiltins)
                 return TheoryObj("symgen", fields={"node": node, "env": env, "iter": itv})
         return PList(self._comp(node, env, lambda e: self.eval(node.elt, e)))
+
+    def symiter_nonempty(self, it: TheoryObj):
+        """z3 Bool: the collection has at least one element (free, except that a member witness implies it)."""
+        ne = it.fields.get("nonempty")
+        if ne is None:
+            ne = self.ctx.fresh_bool("nonempty")
+            it.fields["nonempty"] = ne
+            for _w, inlist in it.fields.get("witnesses", []):
+                self.ctx.assume(z3.Implies(inlist, ne))
+        return ne
+
+    def symiter_comprehension(self, node, env, src: TheoryObj):
+        """[elt for x in S if conds] over a collection S of unknown size: another such collection.
+        arbitrary element: elt(a) for an arbitrary a of S passing the conditions (path-conditioned);
+        witnesses: (elt(w), inlist(w) and conds(w)); non-emptiness: free, implied by a member witness, implies S non-empty."""
+        g = node.generators[0]
+
+        def mk(I):
+            a = src.fields["mk"](I)
+            e2 = Env(env.module, parent=env, fn=env.fn)
+            I.assign(g.target, a, e2)
+            for cond in g.ifs:
+                if not I.decide_truth(I.eval(cond, e2)):
+                    raise PathEnd()
+            return I.eval(node.elt, e2)
+        wit = []
+        for w, inlist in src.fields.get("witnesses", []):
+            e2 = Env(env.module, parent=env, fn=env.fn)
+            self.assign(g.target, w, e2)
+            conds = []
+            for cond in g.ifs:
+                conds.append(pyops.bool_z(pyops.truth(self.eval(cond, e2))))
+            wit.append((self.eval(node.elt, e2), z3.And(inlist, *conds) if conds else inlist))
+        out = TheoryObj("symiter", fields={"mk": mk, "witnesses": wit, "parent": src})
+        ne = self.symiter_nonempty(out)
+        self.ctx.assume(z3.Implies(ne, self.symiter_nonempty(src)))
+        return out
 
     def eval_gen_element(self, gen: TheoryObj, item):
         """value of the generator's element expression for one concrete/symbolic item (None if filtered out)."""
@@ -1261,6 +1317,8 @@ class Interp:
                 items = list(vv)
             elif isinstance(vv, (TheoryObj, SOpaque)):
                 items = self.iter_concrete(vv)
+            elif isinstance(vv, (bool, int, float, SInt, SBool, SFloat)) or type(vv).__name__ == "SXReal":
+                raise PyExc("TypeError", "cannot unpack non-iterable number")
             else:
                 # unpacking a value of unknown shape: TypeError/ValueError possible
                 hook = self.reg.builtins.get("__unpack__")
@@ -1714,6 +1772,10 @@ _DUNDER = {"+": "__add__", "-": "__sub__", "*": "__mul__", "&": "__and__", "|": 
 _RDUNDER = {"+": "__radd__", "-": "__rsub__", "*": "__rmul__", "&": "__rand__", "|": "__ror__", "==": "__eq__",
             "!=": "__ne__", "<": "__gt__", "<=": "__ge__", ">": "__lt__", ">=": "__le__", "/": "__rtruediv__",
             "//": "__rfloordiv__", "%": "__rmod__", "^": "__rxor__", "**": "__rpow__", "<<": "__rlshift__", ">>": "__rrshift__"}
+
+
+def _overloaded(v):
+    return isinstance(v, SOpaque) or (isinstance(v, TheoryObj) and v.fields.get("__overloads__"))
 
 
 def _load(target):
